@@ -1430,7 +1430,19 @@ class EventSeriesDriver(_QueryOnly):
         ["event_series_analysis", [], {"method": m, "symmetrization": sym}]
         for m in ("ES", "ECA")
         for sym in ("directed", "symmetric", "antisym", "mean", "max", "min")
-        if not (m == "ECA" and sym in ("symmetric", "antisym")))
+        if not (m == "ECA" and sym in ("symmetric", "antisym"))) + (
+        # significance levels: analytic null model and (reseeded) shuffles
+        ["event_analysis_significance", [],
+         {"method": "ECA", "surrogate": "analytic",
+          "window_type": "retarded"}],
+        ["event_analysis_significance", [],
+         {"method": "ECA", "surrogate": "analytic",
+          "window_type": "advanced"}],
+        ["event_analysis_significance", [],
+         {"method": "ES", "surrogate": "shuffle", "n_surr": 12}],
+        ["event_analysis_significance", [],
+         {"method": "ECA", "surrogate": "shuffle", "n_surr": 12,
+          "symmetrization": "max"}])
 
     def cls(self):
         from pyunicorn.eventseries import EventSeries
